@@ -143,9 +143,17 @@ theorem skeleton_agrees :
     parked on a not yet selected connection are appended at the back and handed to `got_record` from
     the front (`processInboundQueue` is oldest-first), and a SubChannel's pending data / pending
     close are per-instance attributes initialised from fresh literals (`Sub.pendData` belongs to
-    one subchannel). -/
+    one subchannel); `_outbound_queue` is created, appended to by `queue_and_send_record` and popped by
+    `handle_ack` and touched by NO other method of Outbound (in particular closing a subchannel leaves the
+    retransmit queue alone — the model's `queue` changes in `queueAndSend` and `handleAck` only), likewise
+    `_queued_unsent`; `_highest_inbound_acked` starts at the integer -1 (`Side.init.high`) and
+    `is_record_old` is exactly `r.seqnum <= self._highest_inbound_acked` (`isRecordOld`). -/
 theorem structure_agrees :
-    Gen.Flags.dcp_parked_queue_fifo = true ∧ Gen.Flags.subchannel_pending_per_instance = true := by
+    Gen.Flags.dcp_parked_queue_fifo = true ∧ Gen.Flags.subchannel_pending_per_instance = true ∧
+    Gen.Flags.outbound_queue_touched_only_by_send_and_ack = true ∧
+    Gen.Flags.queued_unsent_touched_only_by_known_methods = true ∧
+    Gen.Flags.inbound_watermark_starts_at_minus_one = true ∧
+    Gen.Flags.is_record_old_is_plain_le = true := by
   decide
 
 /-! ### above the ARQ: subchannels and late listeners (per-step theorems) -/
